@@ -10,7 +10,7 @@ LEAN_MODULES = ["KaVerif.Props.C15"]
 GEN = []
 THEOREMS = ["KaVerif.C15_int_full", "KaVerif.C15_frac", "KaVerif.C15_float_round", "KaVerif.C15_float_text",
             "KaVerif.C15_float", "KaVerif.C15_precision_total", "KaVerif.C15_approx_total",
-            "KaVerif.C15_reentry_exact_partial", "KaVerif.C15_reentry_qty_partial", "KaVerif.C15_qty", "KaVerif.C15_array", "KaVerif.C15_interval", "KaVerif.C15_interval_reentry_ordered"]
+            "KaVerif.C15_reentry_exact_partial", "KaVerif.C15_reentry_qty_partial", "KaVerif.C15_qty", "KaVerif.C15_array", "KaVerif.C15_interval", "KaVerif.C15_interval_reentry_ordered", "KaVerif.C15_full_digits_have_point"]
 RULE = ("values of every displayable kind (int, Fraction, float, Quantity with each magnitude kind, Array, Interval, str, "
         "Instant), arrays nested to depth 3; ints up to 5000 digits, fractions with whole part 0 / >=1 / negative / huge, "
         "floats by random bit pattern across 1e-300..1e300 plus subnormals, exact rounding ties (k+0.5, 2.5e-5, 999999.5, "
